@@ -72,6 +72,12 @@ def run(F):
         r.fail(iid + "|missing", "-", "PlanarInterface::solve_inplace not found")
     else:
         b = bs[0]
+        # the post-processing may live in a method of PlanarInterface that solve_inplace delegates to
+        if not any(callee(t)[2] == "grand_potential_density" for _, t in b.calls()):
+            for bi, t in b.calls():
+                cb = F.callee_body(t)
+                if cb is not None and "interface::PlanarInterface" in cb.path and any(callee(t2)[2] == "grand_potential_density" for _, t2 in cb.calls()):
+                    b = cb
         defs = Defs(b)
         ok = False
         for bi, t in b.calls():
